@@ -12,13 +12,17 @@ for d in seeded/$pat; do
   [ -z "$(git -C /repo status --short | grep -v "^??")" ] || { echo "/repo not clean before $name" >> work/retest_summary.txt; exit 2; }
   # patches made before a later fix commit may need context fuzz or a 3-way merge
   how=exact
-  if ! git -C /repo apply /verif/$d/patch.diff 2>/dev/null; then
+  if [ -f $d/patch_head.diff ]; then
+    # the change re-expressed on the current HEAD (the original conflicts with a later fix commit)
+    git -C /repo apply /verif/$d/patch_head.diff || { echo "$name patch_head does not apply" >> work/retest_summary.txt; continue; }
+    how=ported
+  elif ! git -C /repo apply /verif/$d/patch.diff 2>/dev/null; then
     if (cd /repo && patch -p1 -F3 -s --no-backup-if-mismatch --dry-run < /verif/$d/patch.diff >/dev/null 2>&1); then
       (cd /repo && patch -p1 -F3 -s --no-backup-if-mismatch < /verif/$d/patch.diff); how=fuzz
     elif git -C /repo apply -3 /verif/$d/patch.diff 2>/dev/null; then
       how=3way
     else
-      git -C /repo checkout -- . ; git -C /repo reset -q
+      git -C /repo reset -q; git -C /repo checkout -- .
       echo "$name patch does not apply" >> work/retest_summary.txt; continue
     fi
   fi
